@@ -564,5 +564,64 @@ Definition chk_C06 (n : netlist) (links : list dlink) (ninis : nat) : fails :=
                      | _, _ => []
                      end) (n_nis n).
 
+(* ---------------------------------------------------------------- C08: AXI ports, bindings, roles *)
+Definition port_eqb (a b : port_decl) : bool :=
+  str_eqb (pd_dir a) (pd_dir b) && str_eqb (pd_type a) (pd_type b) && list_eqb_Z (pd_dims a) (pd_dims b) &&
+  str_eqb (pd_name a) (pd_name b).
+Definition port_str (p : port_decl) : string :=
+  pd_dir p +++ " " +++ pd_type p +++ " [" +++ concat_with "," (map ZS (pd_dims p)) +++ "] " +++ pd_name p.
+Definition kv_eqb (a b : string * string) : bool := str_eqb (fst a) (fst b) && str_eqb (snd a) (snd b).
+Definition flag_eqb (a b : string * (bool * bool)) : bool :=
+  str_eqb (fst a) (fst b) && Bool.eqb (fst (snd a)) (fst (snd b)) && Bool.eqb (snd (snd a)) (snd (snd b)).
+Definition cfg_eqb (a b : string * list (string * Z)) : bool :=
+  str_eqb (fst a) (fst b) && list_eqb (fun x y => str_eqb (fst x) (fst y) && (snd x =? snd y)) (snd a) (snd b).
+
+Definition flag_str (f : string * (bool * bool)) : string :=
+  fst f +++ ":sbr=" +++ (if fst (snd f) then "1" else "0") +++ ",mgr=" +++ (if snd (snd f) then "1" else "0").
+Definition kv_str (p : string * string) : string := fst p +++ "=" +++ snd p.
+Definition cfg_str (c : string * list (string * Z)) : string :=
+  fst c +++ "{" +++ concat_with "," (map (fun f : string * Z => fst f +++ ":" +++ ZS (snd f)) (snd c)) +++ "}".
+
+(* what the description implies for one network interface *)
+Record ni_expect := { ne_name : string; ne_flags : list (string * (bool * bool));
+                      ne_axi : list (string * string); ne_enum : string }.
+
+Definition c08_ni (n : netlist) (e : ni_expect) : fails :=
+  match find_ni n (ne_name e) with
+  | None => one "ni-missing" ("no network interface " +++ ne_name e)
+  | Some x =>
+      guard (list_eqb flag_eqb (ni_flags x) (ne_flags e)) "role-enables"
+            (ne_name e +++ ": enabled sides are [" +++
+             concat_with ";" (map flag_str (ni_flags x)) +++ "], expected [" +++
+             concat_with ";" (map flag_str (ne_flags e)) +++ "]") ++
+      guard (list_eqb kv_eqb (ni_axi x) (ne_axi e)) "axi-binding"
+            (ne_name e +++ ": AXI bindings are [" +++ concat_with "; " (map kv_str (ni_axi x))
+             +++ "], expected [" +++ concat_with "; " (map kv_str (ne_axi e)) +++ "]") ++
+      (if str_eqb (n_algo n) "XYRouting" then []
+       else match enum_value (n_ep_enum n) (ne_enum e), ni_id x with
+            | Some v, IdN d => guard (v =? d) "enum-identity"
+                                     (ne_name e +++ " has identity " +++ ZS d +++ " but " +++ ne_enum e +++ " = " +++ ZS v)
+            | _, _ => one "enum-identity" (ne_name e +++ ": no enumeration member " +++ ne_enum e)
+            end) ++
+      (if str_eqb (n_algo n) "SourceRouting"
+       then guard (opt_str_eqb (ni_row x) (Some (ne_enum e))) "table-row"
+                  (ne_name e +++ " selects routing-table row " +++ show_opt (ni_row x) +++ ", expected " +++ ne_enum e)
+       else [])
+  end.
+
+Definition chk_C08 (n : netlist) (ports : list port_decl) (nis : list ni_expect)
+           (cfgs : list (string * list (string * Z))) : fails :=
+  guard (list_eqb port_eqb (skipn 3 (n_ports n)) ports) "ports"
+        ("top-level AXI ports are [" +++ concat_with "; " (map port_str (skipn 3 (n_ports n))) +++ "], expected ["
+         +++ concat_with "; " (map port_str ports) +++ "]") ++
+  guard (Nat.eqb (length (n_nis n)) (length nis)) "ni-count" "number of network interfaces" ++
+  flat_map (c08_ni n) nis ++
+  guard (list_eqb cfg_eqb (n_axi_cfgs n) cfgs) "axi-cfg"
+        ("AXI configuration records [" +++
+         concat_with "; " (map cfg_str (n_axi_cfgs n))
+         +++ "] expected [" +++
+         concat_with "; " (map cfg_str cfgs)
+         +++ "]").
+
 (* ---------------------------------------------------------------- wire format *)
 Definition fails_to_sx (f : fails) : sx := xL (fun p => L [A (fst p); A (sanitize (snd p))]) f.
